@@ -49,7 +49,10 @@ def g_text_filter(r: random.Random, depth: int, fan: int = 4, hostile=True, dn_r
         if k == "not":
             return ("not", g_text_filter(r, depth - 1, fan, hostile, dn_rule_rate))
         n = r.choice([1, 1, 2, 2, 3, fan])
-        return (k, tuple(g_text_filter(r, depth - 1 if i == 0 else r.randrange(0, depth), fan, hostile, dn_rule_rate) for i in range(n)))
+        kids = [g_text_filter(r, depth - 1 if i == 0 else r.randrange(0, depth), fan, hostile, dn_rule_rate) for i in range(n)]
+        if r.random() < 0.15:  # SET OF may hold equal members: repeat one (adjacent or not)
+            kids.insert(r.randrange(0, len(kids) + 1), r.choice(kids))
+        return (k, tuple(kids))
     k = r.choice(["eq", "eq", "ge", "le", "approx", "present", "sub", "sub", "ext", "ext"])
     attr = gv.g_attrdesc(r)
     if k in ("eq", "ge", "le", "approx"):
